@@ -90,13 +90,25 @@ static GLOBAL: CountingAlloc = CountingAlloc;
 // ---------- deref counting section data ----------
 static DEREFS: AtomicU64 = AtomicU64::new(0);
 #[derive(Clone)]
-struct Data(Arc<Vec<u8>>);
+struct Data(Arc<Vec<u8>>, usize);
 impl Deref for Data {
     type Target = [u8];
     fn deref(&self) -> &[u8] {
         DEREFS.fetch_add(1, Ordering::Relaxed);
-        &self.0[..]
+        &self.0[self.1..]
     }
+}
+// `config ... misalign=N`: section bytes start N bytes into their allocation (a view into a file mapping
+// whose sections lie at odd file offsets)
+static MISALIGN: std::sync::atomic::AtomicUsize = std::sync::atomic::AtomicUsize::new(0);
+fn section_data(bytes: Vec<u8>) -> Data {
+    let mis = MISALIGN.load(Ordering::Relaxed);
+    if mis == 0 {
+        return Data(Arc::new(bytes), 0);
+    }
+    let mut v = vec![0u8; mis];
+    v.extend_from_slice(&bytes);
+    Data(Arc::new(v), mis)
 }
 
 // ---------- panic location capture ----------
@@ -631,7 +643,7 @@ fn parse_module(t: &mut Toks) -> (String, Module<Data>) {
             None => (false, name),
         };
         if hex != "-" {
-            let d = Data(Arc::new(parse_hex(hex)));
+            let d = section_data(parse_hex(hex));
             if is_seg {
                 si.seg_data.insert(name.as_bytes().to_vec(), d);
             } else {
@@ -1219,6 +1231,7 @@ fn main() {
                         "arch" => arch = v.to_string(),
                         "policy" => policy = v.to_string(),
                         "count" => COUNT_ITEMS.store(v == "1", Ordering::Relaxed),
+                        "misalign" => MISALIGN.store(v.parse().unwrap_or(0), Ordering::Relaxed),
                         _ => {}
                     }
                 }
